@@ -38,11 +38,13 @@ DRIVER_ROOT = 'Drv.C18'
 GEN = []
 THEOREMS = [
     'C18.lint_total_pure',
-    'C18.unknown_label_exact', 'C18.unknown_label_mem_lint', 'C18.unknown_label_iff_findLabel_none',
+    'C18.unknown_label_exact', 'C18.unknown_label_mem_lint',
+    'C18.unknown_label_iff_findLabel_none', 'C18.jump_reported_iff_findLabel_none',
+    'C18.findLabel_some', 'C18.findLabel_none', 'C18.lastJump_spec',
     'C18.unused_label_exact', 'C18.unused_label_mem_lint',
     'C18.redefinition_exact_labels', 'C18.redefinition_exact_functions', 'C18.redefinition_exact_args',
     'C18.redefined_iff_defined_twice',
-    'C18.lint_function_block', 'C18.pointless_exact',
+    'C18.pointless_exact', 'C18.lint_function_block', 'C18.mem_lint_scoped',
 ]
 ASSUMPTIONS = [
     'Python str order (sorted) = code-point lexicographic order = Lean String order on the rendered names (tied by the correspondence, '
@@ -744,8 +746,13 @@ def run_cases(ctx, name, rule, cases, semantic_cap=8):
     resps = ctx.driver.batch([{'op': 'lint', 'script': canon_script(m)} for _, m in models])
 
     for (cid, model), resp in zip(models, resps):
-        def report(oracle, input_, expected, actual, **extra):
-            ctx.witness(oracle, jsonable(input_), jsonable(expected), jsonable(actual), stream=name, case=cid, **extra)
+        def report(oracle, input_, expected, actual, cid=cid, **extra):
+            w = dict(extra, oracle=oracle, input=jsonable(input_), expected=jsonable(expected), actual=jsonable(actual))
+            if F19(w):   # known finding: keep a few examples, do not let them crowd out other witnesses
+                stats['F19-witness'] = stats.get('F19-witness', 0) + 1
+                if stats['F19-witness'] > 25:
+                    return
+            ctx.witness(oracle, w['input'], w['expected'], w['actual'], stream=name, case=cid, **extra)
         impl_out = check_model(model, report, stats, semantic_cap)
         model_out = resp.get('warnings', resp)
         ctx.compare(name, {'case': cid, 'model': model}, impl_out, model_out)
@@ -800,13 +807,13 @@ def streams(ctx):
     rng = ctx.rng('lint-structured')
     run_cases(ctx, 'lint-structured', 'random BareScript source (assignments, calls, if/elif/else, while, for, break/continue, '
               'functions with duplicate/unused arguments, returns, user labels and jumps, effect-free statements) parsed by the real '
-              'parse_script; non-trivial = lint reports at least one warning', structured_cases(rng, ctx.scale(500, 6000)))
+              'parse_script; non-trivial = lint reports at least one warning', structured_cases(rng, ctx.scale(1500, 16000)))
 
     rng = ctx.rng('lint-jump')
     run_cases(ctx, 'lint-jump', 'random hand-built jump-level models, schema-validated: user labels (incl. non-ASCII, generated-name '
               'look-alikes), duplicate labels, dangling jumps, duplicate functions/arguments, unused labels, effect-free expression '
               'statements, includes; non-trivial = at least one warning',
-              [(f'jump{i}', JumpGen(rng).model()) for i in range(ctx.scale(700, 8000))])
+              [(f'jump{i}', JumpGen(rng).model()) for i in range(ctx.scale(2000, 24000))])
 
     shipped = []
     inc_dir = os.path.join(os.path.dirname(fw.impl()['model'].__file__), 'include')
@@ -828,7 +835,7 @@ def streams(ctx):
 
     rng = ctx.rng('lint-nested')
     nested = [(cid, d['model']) for cid, d in load_corpus() if d.get('nested')]
-    nested += [(f'nested{i}', JumpGen(rng, nested=True).model()) for i in range(ctx.scale(150, 1500))]
+    nested += [(f'nested{i}', JumpGen(rng, nested=True).model()) for i in range(ctx.scale(300, 800))]
     run_cases(ctx, 'lint-nested', 'jump-level models in which function bodies may contain function statements (finding F19: lint does '
               'not look inside them); the model mirrors the non-descending behaviour; non-trivial = at least one warning', nested,
               semantic_cap=3)
